@@ -16,7 +16,7 @@ pub mod cap {
     #[cfg(kani)]
     pub const STR: usize = 8;
     #[cfg(kani)]
-    pub const VEC: usize = 6;
+    pub const VEC: usize = 4;
     #[cfg(kani)]
     pub const MAP: usize = 4;
     #[cfg(kani)]
@@ -972,107 +972,249 @@ pub mod collections {
     }
 
     // ---------------------------------------------------------------------------------------------------------
-    /// Insertion-ordered association list standing in for `HashMap` (keys compared with `==`).
+    // Maps: a fixed array of slots, never shifted. Every update is written as "for each concrete slot i: if <cond on slot i> then
+    // write slot i", never as "compute a symbolic index, then write there": conditional writes to concrete slots stay
+    // field-sensitive in CBMC, whereas shifting Line-sized elements at a symbolic position ran the propositional reduction out of
+    // memory (measured on three symbolic inserts into the listing). Ordered iteration of the BTreeMap model selects the next key
+    // by comparison on demand.
+
+    struct Slots<K, V> {
+        s: [Option<(K, V)>; MAP],
+    }
+    impl<K, V> Slots<K, V> {
+        const fn new() -> Self {
+            Slots { s: [const { None }; MAP] }
+        }
+        fn len(&self) -> usize {
+            let mut n = 0;
+            let mut i = 0;
+            while i < MAP {
+                if self.s[i].is_some() {
+                    n += 1;
+                }
+                i += 1;
+            }
+            n
+        }
+        fn clear(&mut self) {
+            let mut i = 0;
+            while i < MAP {
+                self.s[i] = None;
+                i += 1;
+            }
+        }
+        fn position<Q: ?Sized + PartialEq>(&self, k: &Q) -> Option<usize>
+        where
+            K: Borrow<Q>,
+        {
+            let mut i = 0;
+            while i < MAP {
+                if let Some(e) = &self.s[i] {
+                    if e.0.borrow() == k {
+                        return Some(i);
+                    }
+                }
+                i += 1;
+            }
+            None
+        }
+        fn get<Q: ?Sized + PartialEq>(&self, k: &Q) -> Option<&V>
+        where
+            K: Borrow<Q>,
+        {
+            let mut i = 0;
+            while i < MAP {
+                if let Some(e) = &self.s[i] {
+                    if e.0.borrow() == k {
+                        return Some(&e.1);
+                    }
+                }
+                i += 1;
+            }
+            None
+        }
+        fn get_mut<Q: ?Sized + PartialEq>(&mut self, k: &Q) -> Option<&mut V>
+        where
+            K: Borrow<Q>,
+        {
+            let mut i = 0;
+            while i < MAP {
+                let hit = match &self.s[i] {
+                    Some(e) => e.0.borrow() == k,
+                    None => false,
+                };
+                if hit {
+                    return self.s[i].as_mut().map(|e| &mut e.1);
+                }
+                i += 1;
+            }
+            None
+        }
+        fn insert(&mut self, k: K, v: V) -> Option<V>
+        where
+            K: PartialEq,
+        {
+            let mut i = 0;
+            while i < MAP {
+                let hit = match &self.s[i] {
+                    Some(e) => e.0 == k,
+                    None => false,
+                };
+                if hit {
+                    let old = self.s[i].take();
+                    self.s[i] = Some((k, v));
+                    return old.map(|e| e.1);
+                }
+                i += 1;
+            }
+            let mut j = 0;
+            while j < MAP {
+                if self.s[j].is_none() {
+                    self.s[j] = Some((k, v));
+                    return None;
+                }
+                j += 1;
+            }
+            super::capacity_exceeded()
+        }
+        fn remove<Q: ?Sized + PartialEq>(&mut self, k: &Q) -> Option<V>
+        where
+            K: Borrow<Q>,
+        {
+            let mut i = 0;
+            while i < MAP {
+                let hit = match &self.s[i] {
+                    Some(e) => e.0.borrow() == k,
+                    None => false,
+                };
+                if hit {
+                    return self.s[i].take().map(|e| e.1);
+                }
+                i += 1;
+            }
+            None
+        }
+    }
+    impl<K: Clone, V: Clone> Clone for Slots<K, V> {
+        fn clone(&self) -> Self {
+            let mut out = Slots::new();
+            let mut i = 0;
+            while i < MAP {
+                out.s[i] = self.s[i].clone();
+                i += 1;
+            }
+            out
+        }
+    }
+
+    /// Slot-order iterator (HashMap: any order is a valid HashMap order).
+    pub struct SlotIter<'a, K, V> {
+        s: &'a [Option<(K, V)>; MAP],
+        i: usize,
+    }
+    impl<'a, K, V> Iterator for SlotIter<'a, K, V> {
+        type Item = (&'a K, &'a V);
+        fn next(&mut self) -> Option<Self::Item> {
+            while self.i < MAP {
+                let i = self.i;
+                self.i += 1;
+                if let Some(e) = &self.s[i] {
+                    return Some((&e.0, &e.1));
+                }
+            }
+            None
+        }
+    }
+    /// Owning slot-order iterator.
+    pub struct SlotIntoIter<K, V> {
+        s: [Option<(K, V)>; MAP],
+        i: usize,
+    }
+    impl<K, V> Iterator for SlotIntoIter<K, V> {
+        type Item = (K, V);
+        fn next(&mut self) -> Option<(K, V)> {
+            while self.i < MAP {
+                let i = self.i;
+                self.i += 1;
+                if let Some(e) = self.s[i].take() {
+                    return Some(e);
+                }
+            }
+            None
+        }
+    }
+
+    /// `HashMap` model (keys compared with `==`, iteration in slot order).
     pub struct HashMap<K, V> {
-        v: Vec<(K, V), MAP>,
+        t: Slots<K, V>,
     }
     pub mod hash_map {
         pub use super::HashMap;
     }
     impl<K: PartialEq, V> HashMap<K, V> {
         pub fn new() -> Self {
-            HashMap { v: Vec::new() }
+            HashMap { t: Slots::new() }
         }
         pub fn len(&self) -> usize {
-            self.v.len()
+            self.t.len()
         }
         pub fn is_empty(&self) -> bool {
-            self.v.is_empty()
+            self.t.len() == 0
         }
         pub fn clear(&mut self) {
-            self.v.clear()
-        }
-        fn position<Q: ?Sized + PartialEq>(&self, k: &Q) -> Option<usize>
-        where
-            K: Borrow<Q>,
-        {
-            let s = self.v.as_slice();
-            let mut i = 0;
-            while i < s.len() {
-                if s[i].0.borrow() == k {
-                    return Some(i);
-                }
-                i += 1;
-            }
-            None
+            self.t.clear()
         }
         pub fn get<Q: ?Sized + PartialEq>(&self, k: &Q) -> Option<&V>
         where
             K: Borrow<Q>,
         {
-            match self.position(k) {
-                Some(i) => Some(&self.v.as_slice()[i].1),
-                None => None,
-            }
+            self.t.get(k)
         }
         pub fn get_mut<Q: ?Sized + PartialEq>(&mut self, k: &Q) -> Option<&mut V>
         where
             K: Borrow<Q>,
         {
-            match self.position(k) {
-                Some(i) => Some(&mut self.v.as_mut_slice()[i].1),
-                None => None,
-            }
+            self.t.get_mut(k)
         }
         pub fn contains_key<Q: ?Sized + PartialEq>(&self, k: &Q) -> bool
         where
             K: Borrow<Q>,
         {
-            self.position(k).is_some()
+            self.t.position(k).is_some()
         }
         pub fn insert(&mut self, k: K, v: V) -> Option<V> {
-            match self.position(&k) {
-                Some(i) => Some(core::mem::replace(&mut self.v.as_mut_slice()[i].1, v)),
-                None => {
-                    self.v.push((k, v));
-                    None
-                }
-            }
+            self.t.insert(k, v)
         }
         pub fn remove<Q: ?Sized + PartialEq>(&mut self, k: &Q) -> Option<V>
         where
             K: Borrow<Q>,
         {
-            match self.position(k) {
-                Some(i) => Some(self.v.remove(i).1),
-                None => None,
-            }
+            self.t.remove(k)
         }
         pub fn retain<F: FnMut(&K, &mut V) -> bool>(&mut self, mut f: F) {
             let mut i = 0;
-            while i < self.v.len() {
-                let keep = {
-                    let e = &mut self.v.as_mut_slice()[i];
-                    f(&e.0, &mut e.1)
+            while i < MAP {
+                let keep = match &mut self.t.s[i] {
+                    Some(e) => f(&e.0, &mut e.1),
+                    None => true,
                 };
-                if keep {
-                    i += 1;
-                } else {
-                    drop(self.v.remove(i));
+                if !keep {
+                    self.t.s[i] = None;
                 }
+                i += 1;
             }
         }
         pub fn entry(&mut self, k: K) -> Entry<'_, K, V> {
             Entry { map: self, key: k }
         }
-        pub fn iter(&self) -> Iter<'_, K, V> {
-            Iter { it: self.v.as_slice().iter() }
+        pub fn iter(&self) -> SlotIter<'_, K, V> {
+            SlotIter { s: &self.t.s, i: 0 }
         }
         pub fn keys(&self) -> impl Iterator<Item = &K> {
-            self.v.as_slice().iter().map(|e| &e.0)
+            self.iter().map(|e| e.0)
         }
         pub fn values(&self) -> impl Iterator<Item = &V> {
-            self.v.as_slice().iter().map(|e| &e.1)
+            self.iter().map(|e| e.1)
         }
     }
     pub struct Entry<'a, K, V> {
@@ -1081,181 +1223,260 @@ pub mod collections {
     }
     impl<'a, K: PartialEq, V> Entry<'a, K, V> {
         pub fn or_insert_with<F: FnOnce() -> V>(self, f: F) -> &'a mut V {
-            let idx = match self.map.position(&self.key) {
+            let Entry { map, key } = self;
+            let idx = match map.t.position(&key) {
                 Some(i) => i,
                 None => {
-                    self.map.v.push((self.key, f()));
-                    self.map.v.len() - 1
+                    let mut j = 0;
+                    let mut at = MAP;
+                    while j < MAP {
+                        if at == MAP && map.t.s[j].is_none() {
+                            at = j;
+                        }
+                        j += 1;
+                    }
+                    if at == MAP {
+                        super::capacity_exceeded();
+                    }
+                    map.t.s[at] = Some((key, f()));
+                    at
                 }
             };
-            &mut self.map.v.as_mut_slice()[idx].1
+            match &mut map.t.s[idx] {
+                Some(e) => &mut e.1,
+                None => unreachable!(),
+            }
         }
         pub fn or_insert(self, v: V) -> &'a mut V {
             self.or_insert_with(|| v)
         }
     }
-    pub struct Iter<'a, K, V> {
-        it: core::slice::Iter<'a, (K, V)>,
-    }
-    impl<'a, K, V> Iterator for Iter<'a, K, V> {
-        type Item = (&'a K, &'a V);
-        fn next(&mut self) -> Option<Self::Item> {
-            self.it.next().map(|e| (&e.0, &e.1))
-        }
-    }
-    impl<'a, K, V> DoubleEndedIterator for Iter<'a, K, V> {
-        fn next_back(&mut self) -> Option<Self::Item> {
-            self.it.next_back().map(|e| (&e.0, &e.1))
-        }
-    }
     impl<K, V> Default for HashMap<K, V> {
         fn default() -> Self {
-            HashMap { v: Vec::new() }
+            HashMap { t: Slots::new() }
         }
     }
     impl<K: Clone, V: Clone> Clone for HashMap<K, V> {
         fn clone(&self) -> Self {
-            HashMap { v: self.v.clone() }
+            HashMap { t: self.t.clone() }
         }
     }
     impl<K: core::fmt::Debug, V: core::fmt::Debug> core::fmt::Debug for HashMap<K, V> {
         fn fmt(&self, f: &mut core::fmt::Formatter<'_>) -> core::fmt::Result {
-            f.debug_map().entries(self.v.as_slice().iter().map(|e| (&e.0, &e.1))).finish()
+            f.debug_map().entries(SlotIter { s: &self.t.s, i: 0 }).finish()
         }
     }
     impl<K, V> IntoIterator for HashMap<K, V> {
         type Item = (K, V);
-        type IntoIter = super::vec::IntoIter<(K, V), MAP>;
+        type IntoIter = SlotIntoIter<K, V>;
         fn into_iter(self) -> Self::IntoIter {
-            self.v.into_iter()
+            SlotIntoIter { s: self.t.s, i: 0 }
         }
     }
     impl<'a, K, V> IntoIterator for &'a HashMap<K, V> {
         type Item = (&'a K, &'a V);
-        type IntoIter = Iter<'a, K, V>;
+        type IntoIter = SlotIter<'a, K, V>;
         fn into_iter(self) -> Self::IntoIter {
-            Iter { it: self.v.as_slice().iter() }
+            SlotIter { s: &self.t.s, i: 0 }
         }
     }
 
     // ---------------------------------------------------------------------------------------------------------
-    /// Sorted association list standing in for `BTreeMap`.
+    /// `BTreeMap` model: unordered slots, ordered iteration by on-demand selection of the next key.
     pub struct BTreeMap<K, V> {
-        v: Vec<(K, V), MAP>,
+        t: Slots<K, V>,
+    }
+    /// Borrowing ordered iterator over the keys inside (lo, hi), both ends movable (`DoubleEndedIterator`).
+    pub struct Iter<'a, K, V> {
+        s: &'a [Option<(K, V)>; MAP],
+        /// exclusive lower fence: last key yielded from the front (None = use `start`)
+        lo: Option<&'a K>,
+        hi: Option<&'a K>,
+        start: core::ops::Bound<K>,
+        end: core::ops::Bound<K>,
+    }
+    impl<'a, K: Ord, V> Iter<'a, K, V> {
+        fn admissible(&self, k: &K) -> bool {
+            use core::ops::Bound::*;
+            let above = match self.lo {
+                Some(l) => k > l,
+                None => match &self.start {
+                    Included(a) => k >= a,
+                    Excluded(a) => k > a,
+                    Unbounded => true,
+                },
+            };
+            let below = match self.hi {
+                Some(h) => k < h,
+                None => match &self.end {
+                    Included(b) => k <= b,
+                    Excluded(b) => k < b,
+                    Unbounded => true,
+                },
+            };
+            above && below
+        }
+    }
+    impl<'a, K: Ord, V> Iterator for Iter<'a, K, V> {
+        type Item = (&'a K, &'a V);
+        fn next(&mut self) -> Option<Self::Item> {
+            let mut best: Option<&'a (K, V)> = None;
+            let mut i = 0;
+            while i < MAP {
+                if let Some(e) = &self.s[i] {
+                    if self.admissible(&e.0) {
+                        let better = match best {
+                            Some(b) => e.0 < b.0,
+                            None => true,
+                        };
+                        if better {
+                            best = Some(e);
+                        }
+                    }
+                }
+                i += 1;
+            }
+            match best {
+                Some(e) => {
+                    self.lo = Some(&e.0);
+                    Some((&e.0, &e.1))
+                }
+                None => None,
+            }
+        }
+    }
+    impl<'a, K: Ord, V> DoubleEndedIterator for Iter<'a, K, V> {
+        fn next_back(&mut self) -> Option<Self::Item> {
+            let mut best: Option<&'a (K, V)> = None;
+            let mut i = 0;
+            while i < MAP {
+                if let Some(e) = &self.s[i] {
+                    if self.admissible(&e.0) {
+                        let better = match best {
+                            Some(b) => e.0 > b.0,
+                            None => true,
+                        };
+                        if better {
+                            best = Some(e);
+                        }
+                    }
+                }
+                i += 1;
+            }
+            match best {
+                Some(e) => {
+                    self.hi = Some(&e.0);
+                    Some((&e.0, &e.1))
+                }
+                None => None,
+            }
+        }
+    }
+    /// Owning ordered iterator (ascending keys).
+    pub struct IntoIterSorted<K, V> {
+        s: [Option<(K, V)>; MAP],
+    }
+    impl<K: Ord, V> Iterator for IntoIterSorted<K, V> {
+        type Item = (K, V);
+        fn next(&mut self) -> Option<(K, V)> {
+            let mut at = MAP;
+            let mut i = 0;
+            while i < MAP {
+                if let Some(e) = &self.s[i] {
+                    let better = if at == MAP {
+                        true
+                    } else {
+                        match &self.s[at] {
+                            Some(b) => e.0 < b.0,
+                            None => true,
+                        }
+                    };
+                    if better {
+                        at = i;
+                    }
+                }
+                i += 1;
+            }
+            if at == MAP {
+                None
+            } else {
+                self.s[at].take()
+            }
+        }
     }
     pub mod btree_map {
         pub use super::BTreeMap;
         /// `BTreeMap::values()`
         pub struct Values<'a, K, V> {
-            pub(super) it: core::slice::Iter<'a, (K, V)>,
+            pub(super) it: super::Iter<'a, K, V>,
         }
-        impl<'a, K, V> Iterator for Values<'a, K, V> {
+        impl<'a, K: Ord, V> Iterator for Values<'a, K, V> {
             type Item = &'a V;
             fn next(&mut self) -> Option<&'a V> {
-                self.it.next().map(|e| &e.1)
+                self.it.next().map(|e| e.1)
             }
         }
-        impl<'a, K, V> DoubleEndedIterator for Values<'a, K, V> {
+        impl<'a, K: Ord, V> DoubleEndedIterator for Values<'a, K, V> {
             fn next_back(&mut self) -> Option<&'a V> {
-                self.it.next_back().map(|e| &e.1)
+                self.it.next_back().map(|e| e.1)
             }
         }
     }
     impl<K: Ord, V> BTreeMap<K, V> {
         pub fn new() -> Self {
-            BTreeMap { v: Vec::new() }
+            BTreeMap { t: Slots::new() }
         }
         pub fn len(&self) -> usize {
-            self.v.len()
+            self.t.len()
         }
         pub fn is_empty(&self) -> bool {
-            self.v.is_empty()
+            self.t.len() == 0
         }
         pub fn clear(&mut self) {
-            self.v.clear()
-        }
-        /// index of the first entry with key >= k
-        fn lower<Q: ?Sized + Ord>(&self, k: &Q) -> usize
-        where
-            K: Borrow<Q>,
-        {
-            let s = self.v.as_slice();
-            let mut i = 0;
-            while i < s.len() {
-                if s[i].0.borrow() >= k {
-                    break;
-                }
-                i += 1;
-            }
-            i
-        }
-        fn find<Q: ?Sized + Ord>(&self, k: &Q) -> Option<usize>
-        where
-            K: Borrow<Q>,
-        {
-            let i = self.lower(k);
-            let s = self.v.as_slice();
-            if i < s.len() && s[i].0.borrow() == k {
-                Some(i)
-            } else {
-                None
-            }
+            self.t.clear()
         }
         pub fn get<Q: ?Sized + Ord>(&self, k: &Q) -> Option<&V>
         where
             K: Borrow<Q>,
         {
-            match self.find(k) {
-                Some(i) => Some(&self.v.as_slice()[i].1),
-                None => None,
-            }
+            self.t.get(k)
         }
         pub fn get_mut<Q: ?Sized + Ord>(&mut self, k: &Q) -> Option<&mut V>
         where
             K: Borrow<Q>,
         {
-            match self.find(k) {
-                Some(i) => Some(&mut self.v.as_mut_slice()[i].1),
-                None => None,
-            }
+            self.t.get_mut(k)
         }
         pub fn contains_key<Q: ?Sized + Ord>(&self, k: &Q) -> bool
         where
             K: Borrow<Q>,
         {
-            self.find(k).is_some()
+            self.t.position(k).is_some()
         }
         pub fn insert(&mut self, k: K, v: V) -> Option<V> {
-            let i = self.lower(&k);
-            if i < self.v.len() && self.v.as_slice()[i].0 == k {
-                Some(core::mem::replace(&mut self.v.as_mut_slice()[i].1, v))
-            } else {
-                self.v.insert(i, (k, v));
-                None
-            }
+            self.t.insert(k, v)
         }
         pub fn remove<Q: ?Sized + Ord>(&mut self, k: &Q) -> Option<V>
         where
             K: Borrow<Q>,
         {
-            match self.find(k) {
-                Some(i) => Some(self.v.remove(i).1),
-                None => None,
-            }
+            self.t.remove(k)
         }
         pub fn iter(&self) -> Iter<'_, K, V> {
-            Iter { it: self.v.as_slice().iter() }
+            Iter { s: &self.t.s, lo: None, hi: None, start: core::ops::Bound::Unbounded, end: core::ops::Bound::Unbounded }
         }
         pub fn values(&self) -> btree_map::Values<'_, K, V> {
-            btree_map::Values { it: self.v.as_slice().iter() }
+            btree_map::Values { it: self.iter() }
         }
         pub fn keys(&self) -> impl Iterator<Item = &K> {
-            self.v.as_slice().iter().map(|e| &e.0)
+            self.iter().map(|e| e.0)
         }
-        pub fn range<R: core::ops::RangeBounds<K>>(&self, range: R) -> Iter<'_, K, V> {
+        /// `range` over a `RangeInclusive<K>` / `RangeFrom<K>` / ... held by the caller. std panics on an inverted range.
+        pub fn range<'a, R: core::ops::RangeBounds<K> + 'a>(&'a self, range: R) -> Iter<'a, K, V>
+        where
+            K: Clone,
+        {
             use core::ops::Bound::*;
-            let s = self.v.as_slice();
-            // std panics when start > end or when both bounds exclude the same key
             match (range.start_bound(), range.end_bound()) {
                 (Included(a), Included(b)) | (Included(a), Excluded(b)) | (Excluded(a), Included(b)) => {
                     assert!(a <= b, "range start is greater than range end in BTreeMap")
@@ -1263,70 +1484,77 @@ pub mod collections {
                 (Excluded(a), Excluded(b)) => assert!(a < b, "range start and end are equal and excluded in BTreeMap"),
                 _ => {}
             }
-            let mut lo = 0;
-            while lo < s.len() {
-                let inside = match range.start_bound() {
-                    Included(a) => &s[lo].0 >= a,
-                    Excluded(a) => &s[lo].0 > a,
-                    Unbounded => true,
-                };
-                if inside {
-                    break;
-                }
-                lo += 1;
-            }
-            let mut hi = lo;
-            while hi < s.len() {
-                let inside = match range.end_bound() {
-                    Included(b) => &s[hi].0 <= b,
-                    Excluded(b) => &s[hi].0 < b,
-                    Unbounded => true,
-                };
-                if !inside {
-                    break;
-                }
-                hi += 1;
-            }
-            Iter { it: s[lo..hi].iter() }
+            let start = match range.start_bound() {
+                Included(a) => Included(a.clone()),
+                Excluded(a) => Excluded(a.clone()),
+                Unbounded => Unbounded,
+            };
+            let end = match range.end_bound() {
+                Included(b) => Included(b.clone()),
+                Excluded(b) => Excluded(b.clone()),
+                Unbounded => Unbounded,
+            };
+            Iter { s: &self.t.s, lo: None, hi: None, start, end }
         }
         /// Returns everything at or after `k`, keeps the rest.
         pub fn split_off<Q: ?Sized + Ord>(&mut self, k: &Q) -> BTreeMap<K, V>
         where
             K: Borrow<Q>,
         {
-            let i = self.lower(k);
-            let n = self.v.len();
-            let tail: Vec<(K, V), MAP> = self.v.drain(i..n).collect();
-            BTreeMap { v: tail }
+            let mut out = BTreeMap::new();
+            let mut i = 0;
+            while i < MAP {
+                let moves = match &self.t.s[i] {
+                    Some(e) => e.0.borrow() >= k,
+                    None => false,
+                };
+                if moves {
+                    out.t.s[i] = self.t.s[i].take();
+                }
+                i += 1;
+            }
+            out
+        }
+        /// Harness set-up only: store an entry whose key the caller guarantees to be absent (next free slot, concrete shape).
+        pub fn harness_push_ascending(&mut self, k: K, v: V) {
+            let mut j = 0;
+            while j < MAP {
+                if self.t.s[j].is_none() {
+                    self.t.s[j] = Some((k, v));
+                    return;
+                }
+                j += 1;
+            }
+            super::capacity_exceeded()
         }
     }
     impl<K, V> Default for BTreeMap<K, V> {
         fn default() -> Self {
-            BTreeMap { v: Vec::new() }
+            BTreeMap { t: Slots::new() }
         }
     }
     impl<K: Clone, V: Clone> Clone for BTreeMap<K, V> {
         fn clone(&self) -> Self {
-            BTreeMap { v: self.v.clone() }
+            BTreeMap { t: self.t.clone() }
         }
     }
-    impl<K: core::fmt::Debug, V: core::fmt::Debug> core::fmt::Debug for BTreeMap<K, V> {
+    impl<K: core::fmt::Debug + Ord, V: core::fmt::Debug> core::fmt::Debug for BTreeMap<K, V> {
         fn fmt(&self, f: &mut core::fmt::Formatter<'_>) -> core::fmt::Result {
-            f.debug_map().entries(self.v.as_slice().iter().map(|e| (&e.0, &e.1))).finish()
+            f.debug_map().entries(self.iter()).finish()
         }
     }
-    impl<K, V> IntoIterator for BTreeMap<K, V> {
+    impl<K: Ord, V> IntoIterator for BTreeMap<K, V> {
         type Item = (K, V);
-        type IntoIter = super::vec::IntoIter<(K, V), MAP>;
+        type IntoIter = IntoIterSorted<K, V>;
         fn into_iter(self) -> Self::IntoIter {
-            self.v.into_iter()
+            IntoIterSorted { s: self.t.s }
         }
     }
-    impl<'a, K, V> IntoIterator for &'a BTreeMap<K, V> {
+    impl<'a, K: Ord, V> IntoIterator for &'a BTreeMap<K, V> {
         type Item = (&'a K, &'a V);
         type IntoIter = Iter<'a, K, V>;
         fn into_iter(self) -> Self::IntoIter {
-            Iter { it: self.v.as_slice().iter() }
+            self.iter()
         }
     }
 }
@@ -1433,78 +1661,148 @@ pub mod rc {
 
 // =================================================================================================================
 pub mod sync {
+    //! `Arc<T>`. Natively: a reference-counted box with std's observable behaviour (`get_mut` is `None` while another clone
+    //! is alive — the listing-snapshot behaviour of `Listing` depends on it).
+    //! Under Kani: the VALUE IS STORED INLINE in every handle and only the strong count lives in a shared heap cell.
+    //! Measured reason: CBMC treats heap objects byte-wise, and three symbolic inserts into an `Arc<BTreeMap<..>>` on the heap ran
+    //! out of memory. Copying the value on `clone` is observationally equivalent to sharing it, because a shared value can only be
+    //! mutated through `get_mut` / `make_mut`, which refuse / detach while the count is above one — exactly as std does.
+    //! (This needs `T::Store: Clone`, hence the `#[derive(Clone)]` added to `Line` in the vshim copy.)
     use super::cap;
     use super::string::BStr;
     use core::fmt;
 
     /// What an `Arc<T>` stores: `T` itself for sized types, a bounded string for `str`.
     pub trait Stored {
-        type Store;
+        type Store: Clone;
     }
-    impl<T> Stored for T {
+    impl<T: Clone> Stored for T {
         type Store = T;
     }
+    #[cfg(not(kani))]
     impl Stored for str {
         type Store = BStr<{ cap::ARCSTR }>;
     }
+    /// Under Kani an `Arc<str>` (only used for `Error::message`) keeps the address and length of the text instead of a copy:
+    /// every message in the repository is a string literal or a `&'static str` field, and 2 words instead of a 32-byte buffer
+    /// per `Error` matter because errors sit inside the VM state that every harness copies around.
+    #[cfg(kani)]
+    #[derive(Clone, Copy)]
+    pub struct StaticStr {
+        ptr: *const u8,
+        len: usize,
+    }
+    #[cfg(kani)]
+    impl StaticStr {
+        pub fn from_str_slice(s: &str) -> Self {
+            StaticStr { ptr: s.as_ptr(), len: s.len() }
+        }
+        pub fn as_str(&self) -> &str {
+            unsafe { core::str::from_utf8_unchecked(core::slice::from_raw_parts(self.ptr, self.len)) }
+        }
+    }
+    #[cfg(kani)]
+    impl Stored for str {
+        type Store = StaticStr;
+    }
 
+    #[cfg(not(kani))]
     struct Inner<S> {
         count: usize,
         value: S,
     }
-
-    /// Reference-counted box with std's observable behaviour: `get_mut` is `None` while another clone is alive
-    /// (the listing-snapshot behaviour of `Listing` depends on it). Single-threaded count.
+    #[cfg(not(kani))]
     pub struct Arc<T: ?Sized + Stored> {
         ptr: *mut Inner<T::Store>,
     }
+    #[cfg(kani)]
+    pub struct Arc<T: ?Sized + Stored> {
+        count: *mut usize,
+        value: T::Store,
+    }
+
+    #[cfg(not(kani))]
     impl<T: ?Sized + Stored> Arc<T> {
         fn from_store(value: T::Store) -> Self {
             Arc { ptr: Box::into_raw(Box::new(Inner { count: 1, value })) }
         }
-        fn inner(&self) -> &Inner<T::Store> {
-            unsafe { &*self.ptr }
+        #[inline]
+        fn store(&self) -> &T::Store {
+            unsafe { &(*self.ptr).value }
         }
-        pub fn strong_count(this: &Self) -> usize {
-            this.inner().count
+        #[inline]
+        fn store_mut(&mut self) -> &mut T::Store {
+            unsafe { &mut (*self.ptr).value }
         }
-        pub fn ptr_eq(a: &Self, b: &Self) -> bool {
-            a.ptr == b.ptr
+        #[inline]
+        fn count_ref(&self) -> &mut usize {
+            unsafe { &mut (*self.ptr).count }
+        }
+        fn detach(&mut self) {
+            let fresh = Self::from_store(self.store().clone());
+            *self = fresh;
         }
     }
-    impl<T> Arc<T> {
+    #[cfg(kani)]
+    impl<T: ?Sized + Stored> Arc<T> {
+        fn from_store(value: T::Store) -> Self {
+            Arc { count: Box::into_raw(Box::new(1usize)), value }
+        }
+        #[inline]
+        fn store(&self) -> &T::Store {
+            &self.value
+        }
+        #[inline]
+        fn store_mut(&mut self) -> &mut T::Store {
+            &mut self.value
+        }
+        #[inline]
+        fn count_ref(&self) -> &mut usize {
+            unsafe { &mut *self.count }
+        }
+        fn detach(&mut self) {
+            *self.count_ref() -= 1;
+            self.count = Box::into_raw(Box::new(1usize));
+        }
+    }
+    impl<T: ?Sized + Stored> Arc<T> {
+        pub fn strong_count(this: &Self) -> usize {
+            *this.count_ref()
+        }
+    }
+    impl<T: Clone> Arc<T> {
         pub fn new(value: T) -> Self {
             Arc::from_store(value)
         }
         pub fn get_mut(this: &mut Self) -> Option<&mut T> {
-            unsafe {
-                if (*this.ptr).count == 1 {
-                    Some(&mut (*this.ptr).value)
-                } else {
-                    None
-                }
+            if *this.count_ref() == 1 {
+                Some(this.store_mut())
+            } else {
+                None
             }
         }
-    }
-    impl<T: Clone> Arc<T> {
         pub fn make_mut(this: &mut Self) -> &mut T {
-            unsafe {
-                if (*this.ptr).count != 1 {
-                    let fresh = Arc::new((*this.ptr).value.clone());
-                    *this = fresh;
-                }
-                &mut (*this.ptr).value
+            if *this.count_ref() != 1 {
+                this.detach();
             }
+            this.store_mut()
         }
     }
+    #[cfg(not(kani))]
     impl<T: ?Sized + Stored> Clone for Arc<T> {
         fn clone(&self) -> Self {
-            unsafe {
-                (*self.ptr).count += 1;
-            }
+            *self.count_ref() += 1;
             Arc { ptr: self.ptr }
         }
     }
+    #[cfg(kani)]
+    impl<T: ?Sized + Stored> Clone for Arc<T> {
+        fn clone(&self) -> Self {
+            *self.count_ref() += 1;
+            Arc { count: self.count, value: self.value.clone() }
+        }
+    }
+    #[cfg(not(kani))]
     impl<T: ?Sized + Stored> Drop for Arc<T> {
         fn drop(&mut self) {
             unsafe {
@@ -1515,36 +1813,54 @@ pub mod sync {
             }
         }
     }
-    impl<T> core::ops::Deref for Arc<T> {
+    #[cfg(kani)]
+    impl<T: ?Sized + Stored> Drop for Arc<T> {
+        fn drop(&mut self) {
+            unsafe {
+                *self.count -= 1;
+                if *self.count == 0 {
+                    drop(Box::from_raw(self.count));
+                }
+            }
+        }
+    }
+    impl<T: Clone> core::ops::Deref for Arc<T> {
         type Target = T;
         #[inline]
         fn deref(&self) -> &T {
-            unsafe { &(*self.ptr).value }
+            self.store()
         }
     }
     impl core::ops::Deref for Arc<str> {
         type Target = str;
         #[inline]
         fn deref(&self) -> &str {
-            unsafe { (*self.ptr).value.as_str() }
+            self.store().as_str()
         }
     }
-    impl<T: Default> Default for Arc<T> {
+    impl<T: Default + Clone> Default for Arc<T> {
         fn default() -> Self {
             Arc::new(T::default())
         }
     }
-    impl<T> From<T> for Arc<T> {
+    impl<T: Clone> From<T> for Arc<T> {
         fn from(v: T) -> Self {
             Arc::new(v)
         }
     }
+    #[cfg(not(kani))]
     impl From<&str> for Arc<str> {
         fn from(s: &str) -> Self {
             Arc::from_store(BStr::from_str_slice(s))
         }
     }
-    impl<T: fmt::Debug> fmt::Debug for Arc<T> {
+    #[cfg(kani)]
+    impl From<&str> for Arc<str> {
+        fn from(s: &str) -> Self {
+            Arc::from_store(StaticStr::from_str_slice(s))
+        }
+    }
+    impl<T: fmt::Debug + Clone> fmt::Debug for Arc<T> {
         fn fmt(&self, f: &mut fmt::Formatter<'_>) -> fmt::Result {
             fmt::Debug::fmt(&**self, f)
         }
@@ -1559,7 +1875,7 @@ pub mod sync {
             fmt::Display::fmt(&**self, f)
         }
     }
-    impl<T: PartialEq> PartialEq for Arc<T> {
+    impl<T: PartialEq + Clone> PartialEq for Arc<T> {
         fn eq(&self, other: &Self) -> bool {
             **self == **other
         }
